@@ -27,7 +27,34 @@ Section G.
     rewrite <- (C08_signature_shares_recombine K laws O C OL EL s msg coeffs sk rest S) by assumption.
     symmetry. apply bind_ret.
   Qed.
+  (* C08: the refusals of the translated SecretKey::combine - fewer than two shares, a zero identifier, a repeated
+     identifier, a payload that is not a scalar - and of Signature::from_shares on mixed schemes *)
+  Theorem generated_combine_too_few (shares : list share) :
+    (length shares < 2)%nat -> gen_SecretKey_combine E shares = Val (Err VsssError).
+  Proof. intros H. rewrite r_sk_combine. apply (C08_too_few_shares K O (unrepr O) shares H). Qed.
+
+  Theorem generated_combine_zero_identifier (shares : list share) :
+    In 0%N (map sid shares) -> gen_SecretKey_combine E shares = Val (Err VsssError).
+  Proof. intros H. rewrite r_sk_combine. apply (C08_zero_identifier K O (unrepr O) shares H). Qed.
+
+  Theorem generated_combine_duplicate_identifier (shares : list share) :
+    ~ NoDup (map sid shares) -> gen_SecretKey_combine E shares = Val (Err VsssError).
+  Proof. intros H. rewrite r_sk_combine. apply (C08_duplicate_identifier K laws O (unrepr O) shares H). Qed.
+
+  Theorem generated_combine_invalid_payload (shares : list share) :
+    (exists s, In s shares /\ unrepr O (sval s) = None) -> gen_SecretKey_combine E shares = Val (Err VsssError).
+  Proof. intros H. rewrite r_sk_combine. apply (C08_invalid_payload K O (unrepr O) shares H). Qed.
+
+  Theorem generated_from_shares_mixed_scheme (a b : tagged_share) (rest : list tagged_share) :
+    ts_scheme b <> ts_scheme a ->
+    gen_Signature_from_shares E (a :: b :: rest) = Val (Err InvalidSignatureScheme).
+  Proof. intros H. rewrite r_sig_from_shares. apply (C08_mixed_scheme_shares K O a b rest H). Qed.
 End G.
 
 Print Assumptions generated_combine_recovers_key.
 Print Assumptions generated_signature_shares_recombine.
+Print Assumptions generated_combine_too_few.
+Print Assumptions generated_combine_zero_identifier.
+Print Assumptions generated_combine_duplicate_identifier.
+Print Assumptions generated_combine_invalid_payload.
+Print Assumptions generated_from_shares_mixed_scheme.
